@@ -100,6 +100,22 @@ pub fn run(ctx: &mut Ctx) -> Report {
 					if spki.der_bytes() != key.public_key_raw() {
 						s.rep.violate("C14:own-loader:publicKey", "SubjectPublicKeyInfo::from_pem recovers different key bytes", text.clone());
 					}
+					// "recover the same bytes": what the loaded value stands for is the DER that was wrapped
+					// (a certificate issued for the loaded value carries that value's SubjectPublicKeyInfo)
+					let loaded_spki = {
+						let iss = &s.issuers[0];
+						let mut lp = PCert::default_like();
+						lp.serial = Some(vec![8]);
+						lp.real().and_then(|r| r.signed_by(&spki, &iss.cert, &iss.key).ok()).and_then(|c| {
+							let (tbs, _, _) = crate::der::split_signed(c.der())?;
+							let (t, _) = crate::der::read_tlv(&tbs)?;
+							let kids = crate::der::children(t.content)?;
+							Some(kids[6].whole.to_vec())
+						})
+					};
+					if loaded_spki.as_deref() != Some(&key.public_key_der()[..]) {
+						s.rep.violate(&format!("C14:own-loader:publicKey:{}", alg), "SubjectPublicKeyInfo::from_pem accepts the text but the loaded value's SubjectPublicKeyInfo is not the DER that was wrapped", format!("{}\nwrapped: {}\nloaded:  {}", text, hex(&key.public_key_der()), loaded_spki.map(|x| hex(&x)).unwrap_or("(no certificate could be issued for it)".into())));
+					}
 				},
 				Err(e) => s.rep.violate("C14:own-loader:publicKey", "SubjectPublicKeyInfo::from_pem refuses rcgen's own PEM", format!("{:?}\n{}", e, text)),
 			}
@@ -118,6 +134,45 @@ pub fn run(ctx: &mut Ctx) -> Report {
 				Err(e) => s.rep.violate("C14:own-loader:privateKey", "KeyPair::from_pem refuses rcgen's own PEM", format!("{:?}", e)),
 			}
 		}
+	}
+	// --- private-key texts of generated and of *loaded* keys (documents made by OpenSSL and by
+	// ring, in every encoding the build loads) through every PEM loader
+	#[cfg(not(feature = "nocrypto"))]
+	{
+		let mut keys_to_write: Vec<(String, KeyPair)> = Vec::new();
+		for a in keys::build_algs() {
+			if let Ok(k) = KeyPair::generate_for(a) {
+				keys_to_write.push((format!("generated:{}", alg_name(a)), k));
+			}
+		}
+		for doc in crate::props::c11::make_docs(&s.ctx.rsa_fixture.clone(), false) {
+			if let Ok(k) = KeyPair::try_from(doc.der.as_slice()) {
+				keys_to_write.push((format!("loaded:{}:{}:{}", doc.origin, doc.fmt, doc.kty), k));
+			}
+		}
+		for (origin, k) in &keys_to_write {
+			let text = k.serialize_pem();
+			let der = k.serialize_der();
+			check_text(&mut s, "privateKey", "PRIVATE KEY", &der, &text);
+			s.rep.count(&format!("private_key_text:{}", origin.split(':').next().unwrap()));
+			let alg = k.algorithm();
+			let loads: Vec<(&str, Result<KeyPair, Error>)> = vec![
+				("from_pem", KeyPair::from_pem(&text)),
+				("from_pem_and_sign_algo", KeyPair::from_pem_and_sign_algo(&text, alg)),
+				("from_pkcs8_pem_and_sign_algo", KeyPair::from_pkcs8_pem_and_sign_algo(&text, alg)),
+			];
+			for (entry, r) in loads {
+				match r {
+					Ok(k2) => {
+						if k2.serialize_der() != der || k2.public_key_raw() != k.public_key_raw() {
+							s.rep.violate(&format!("C14:own-loader:privateKey:{}", entry), "a PEM loader accepts rcgen's own private-key text but does not recover the same bytes", format!("entry={} key={} algorithm={} (private key text withheld)\nwrapped DER length {}, recovered DER length {}", entry, origin, alg_name(alg), der.len(), k2.serialize_der().len()));
+						}
+					},
+					Err(e) => s.rep.violate(&format!("C14:own-loader:privateKey:{}", entry), "a PEM loader refuses rcgen's own private-key text", format!("entry={} key={} algorithm={} error={:?}", entry, origin, alg_name(alg), e)),
+				}
+			}
+		}
+		s.rep.exhaustive.push("private-key texts of generated keys (every algorithm) and of keys loaded from OpenSSL / ring documents (PKCS#8 v1, v2, SEC1, PKCS#1 as the build loads them) x the three PEM loaders".into());
 	}
 	s.rep.exhaustive.push(format!("certificate common-name padding 0..{} (DER lengths through all residues mod 3 and mod 48) x all five kinds", pad_max));
 	let req = s.drv.requests;
